@@ -23,7 +23,7 @@ META = {
   "h_multiply": {"kind": "G",
     "functions": ["Multiplication.multiply/_compute_copy_names/__divide_segment_and_connection_counts/__clone_segment_and_connections/_distribute_links/_select_distribute_end",
                   "Line.clone", "Connection.connect", "Link.__hash__", "Gfa.rm"],
-    "bounds": "segment X (sequence, RC count from {0,1,7,50,99} (thorough; quick 7), edge count from {0,5,98}, custom tag) with a neighbourhood chosen from 8 shapes (1-3 links on R, links on both ends, parallel links, self link, hairpin, containments either way, names already ending in *2) x factor -1..4 x policy in {None, off, auto, equal, L, R} x copy names given or automatic; statement-derived expectations + reference-graph invariant + neighbourhood oracle",
+    "bounds": "segment X (sequence, RC count from {0,1,7,50,99} (thorough; quick 7), edge count from {0,5,98}, custom tag) with a neighbourhood chosen from 9 shapes (incl. ID-tagged edges) (1-3 links on R, links on both ends, parallel links, self link, hairpin, containments either way, names already ending in *2) x factor -1..4 x policy in {None, off, auto, equal, L, R} x copy names given or automatic; statement-derived expectations + reference-graph invariant + neighbourhood oracle",
     "timeout": {"quick": 400, "thorough": 1500}, "parts": {"quick": 16, "thorough": 16}},
  },
 }
@@ -61,6 +61,7 @@ SHAPES = [
   ("self_link", ["L\tX\t+\tX\t+\t1M\tRC:i:{e}", "L\tX\t+\ta\t+\t2M"]),
   ("hairpin", ["L\tX\t+\tX\t-\t1M\tRC:i:{e}", "L\tb\t+\tX\t+\t2M"]),
   ("containments", ["C\tX\t+\ta\t-\t1\t2M\tRC:i:{e}", "C\tb\t+\tX\t+\t0\t*", "L\tX\t-\tc\t+\t1M"]),
+  ("named_edges", ["L\tX\t+\ta\t+\t2M\tID:Z:l9\tRC:i:{e}", "C\tb\t+\tX\t+\t0\t*\tID:Z:7", "L\tb\t-\tX\t+\t1M"]),
 ]
 NSH = len(SHAPES)
 POLICIES = [None, "off", "auto", "equal", "L", "R"]
@@ -72,6 +73,7 @@ def _edges_of(g, name):
   for l in g.dovetails + g.containments:
     f = str(l).split("\t")
     if f[1] == name or f[3] == name:
+      f = [x for x in f if not x.startswith("ID:Z:")]      # every copy of an identified edge gets its own identifier
       f[1] = "@" if f[1] == name else f[1]
       f[3] = "@" if f[3] == name else f[3]
       out.append(canon_text("\t".join(f)))
@@ -120,20 +122,21 @@ def h_link_hash(si: int) -> bool:
 def h_multiply(si: int, factor: int, pi: int, named: bool, star: bool, rci: int, erci: int) -> bool:
   """
   pre: 0 <= si < NSH and -1 <= factor <= 4 and 0 <= pi < 6
-  pre: 0 <= rci < 5 and 0 <= erci < 3
-  pre: THOROUGH or (rci == 2 and erci == 1)
+  pre: -1 <= rci < 5 and 0 <= erci < 3
+  pre: THOROUGH or ((rci == 2 or rci == -1) and erci == 1)
   pre: (si * 6 + pi) % NPART == PART
   post: _ == True
   """
   vp.enter("mu")
-  rc = RCS[vp.concretize(rci, 0, 4)]
+  rcx = vp.concretize(rci, -1, 4)
+  rc = RCS[rcx] if rcx >= 0 else None          # None: the segment itself carries no counts (only its edges do)
   erc = ERCS[vp.concretize(erci, 0, 2)]
   shape, xlines = SHAPES[vp.concretize(si, 0, NSH - 1)]
   k = vp.concretize(factor, -1, 4)
   policy = POLICIES[vp.concretize(pi, 0, 5)]
   X = "X*2" if star else "X"
   # counts travel through the written lines: bounded to 2 digits (DESIGN 2.4)
-  doc = ["S\t" + X + "\tAACCG\tRC:i:" + str(rc) + "\tKC:i:50\txx:Z:keep"] + \
+  doc = ["S\t" + X + "\tAACCG" + (("\tRC:i:" + str(rc) + "\tKC:i:50") if rc is not None else "") + "\txx:Z:keep"] + \
         [t.replace("{e}", str(erc)).replace("\tX\t", "\t" + X + "\t") for t in xlines] + REST
   with NoTracing():
     g = gfapy.Gfa(doc)                       # (parsing: C01/C04; the multiplication runs traced)
@@ -156,6 +159,7 @@ def h_multiply(si: int, factor: int, pi: int, named: bool, star: bool, rci: int,
   with NoTracing():
     if invariant(g): return False
     if nbhd.check(g): return False
+    if len(g.names) != len(set(g.names)): return False        # identifiers stay pairwise distinct
     rest_after = sorted(canon_text(line_text(l)) for l in g.lines
                         if not (l.record_type == "S" and (l.name == X or l.name not in before_names)) and
                         not (l.record_type in "LC" and any(n == X or n not in before_names for n in (l.from_name, l.to_name))))
@@ -166,7 +170,7 @@ def h_multiply(si: int, factor: int, pi: int, named: bool, star: bool, rci: int,
     if rest_after != before_rest: return False            # the rest of the graph is untouched
     if k == 1:
       return sorted(g.names) == sorted(before_names) and _edges_of(g, X) == x_edges_before and \
-             g.segment(X).RC == rc
+             (rc is None or g.segment(X).RC == rc)
     # k >= 2
     new = [n for n in g.segment_names if n not in before_names]
     if len(new) != k - 1 or len(set(new)) != k - 1: return False
@@ -180,7 +184,9 @@ def h_multiply(si: int, factor: int, pi: int, named: bool, star: bool, rci: int,
     for c in copies:
       s = g.segment(c)
       if str(s.sequence) != seq_before: return False
-      if s.RC != rc // k or s.KC != 50 // k or s.get("xx") != "keep": return False
+      if rc is not None and (s.RC != rc // k or s.KC != 50 // k): return False
+      if rc is None and (s.RC is not None or s.KC is not None): return False
+      if s.get("xx") != "keep": return False
     dist_end = None
     if policy in ("L", "R"): dist_end = policy
     elif policy in ("auto", "equal"):
